@@ -79,7 +79,10 @@ type rtEngine struct {
 	feeAcc sdk.AccAddress
 	keys   []string
 	opn    int
+	scale  *big.Int // per-history magnitude class: every pool reserve / funding is multiplied by it
 }
+
+func (e *rtEngine) sc(x *big.Int) *big.Int { return new(big.Int).Mul(x, e.scale) }
 
 var rtIntMax = new(big.Int).Sub(pow2(256), big.NewInt(1))
 
@@ -639,7 +642,7 @@ func (e *rtEngine) pickDenoms(k int) []string {
 func (e *rtEngine) randLiquidity() *big.Int {
 	// 1e6 .. 1e13
 	m := pow10(6 + e.r.Intn(7))
-	return new(big.Int).Mul(big.NewInt(int64(1+e.r.Intn(9000))), new(big.Int).Quo(m, big.NewInt(10)))
+	return e.sc(new(big.Int).Mul(big.NewInt(int64(1+e.r.Intn(9000))), new(big.Int).Quo(m, big.NewInt(10))))
 }
 
 func (e *rtEngine) setup() {
@@ -653,10 +656,26 @@ func (e *rtEngine) setup() {
 	}
 	e.accs = h.TestAccs[:3]
 	e.wl = map[string]bool{}
+	// magnitude class of the history: ordinary reserves are 1e5 .. 9e15 (all below 2^63)
+	e.scale = big.NewInt(1)
+	mclass := "ordinary"
+	if x := r.Intn(100); x < 16 {
+		switch x % 4 {
+		case 0:
+			e.scale, mclass = pow10(4), "x1e4" // reserves straddle 2^63 / 2^64
+		case 1:
+			e.scale, mclass = new(big.Int).Add(pow2(64), big.NewInt(int64(1+2*r.Intn(500)))), "x(2^64+odd)"
+		case 2:
+			e.scale, mclass = pow10(22+r.Intn(3)), "x1e22..24" // reserves straddle 2^127..2^129
+		default:
+			e.scale, mclass = pow10(30), "x1e30" // reserves up to 2^153
+		}
+	}
+	e.o.Count("class.magnitude." + mclass)
 	for _, a := range e.accs {
 		coins := sdk.NewCoins(sdk.NewCoin("uosmo", bi(pow10(24))))
 		for _, d := range e.denoms {
-			coins = coins.Add(sdk.NewCoin(d, bi(pow10(40))))
+			coins = coins.Add(sdk.NewCoin(d, bi(e.sc(pow10(40)))))
 		}
 		h.FundAcc(a, coins)
 	}
@@ -676,6 +695,11 @@ func (e *rtEngine) setup() {
 	for i, n := 0, 1+r.Intn(2); i < n; i++ {
 		ds := e.pickDenoms(2 + r.Intn(2))
 		base := e.randLiquidity()
+		if lim := pow10(33); base.Cmp(lim) > 0 { // stableswap rejects post-scaled reserves above 10^34: stay just inside
+			base = new(big.Int).Sub(lim, new(big.Int).Rand(r, pow10(30)))
+			base.Quo(base, big.NewInt(2))
+			e.o.Count("class.stable.near-10^34-bound")
+		}
 		coins := sdk.Coins{}
 		var sf []uint64
 		for _, d := range ds {
@@ -718,6 +742,25 @@ func (e *rtEngine) setup() {
 	for _, p := range e.pools {
 		e.o.Count("pool." + p.kind)
 	}
+}
+
+// poolUnderfunded: some gamm pool's bank balance is below its recorded reserves.
+func (e *rtEngine) poolUnderfunded() bool {
+	for _, p := range e.pools {
+		if p.kind == "cl" {
+			continue
+		}
+		gp, err := e.h.App.GAMMKeeper.GetPoolAndPoke(e.h.Ctx, p.id)
+		if err != nil {
+			continue
+		}
+		for _, c := range gp.GetTotalPoolLiquidity(e.h.Ctx) {
+			if e.h.App.BankKeeper.GetBalance(e.h.Ctx, gp.GetAddress(), c.Denom).Amount.LT(c.Amount) {
+				return true
+			}
+		}
+	}
+	return false
 }
 
 func (e *rtEngine) clPosition(id uint64) {
@@ -984,7 +1027,7 @@ func (e *rtEngine) limitAround(x *big.Int, isMin bool) *big.Int {
 		if isMin {
 			return big.NewInt(1)
 		}
-		return pow10(38)
+		return e.sc(pow10(38))
 	}
 	var l *big.Int
 	switch e.r.Intn(8) {
@@ -1013,8 +1056,8 @@ func (e *rtEngine) limitAround(x *big.Int, isMin bool) *big.Int {
 
 func (e *rtEngine) topUp(a sdk.AccAddress) {
 	for _, d := range e.denoms {
-		if e.bal(e.h.Ctx, a, d).Cmp(pow10(39)) < 0 {
-			e.h.FundAcc(a, sdk.NewCoins(sdk.NewCoin(d, bi(pow10(40)))))
+		if e.bal(e.h.Ctx, a, d).Cmp(e.sc(pow10(39))) < 0 {
+			e.h.FundAcc(a, sdk.NewCoins(sdk.NewCoin(d, bi(e.sc(pow10(40))))))
 		}
 	}
 }
@@ -1631,7 +1674,7 @@ func (e *rtEngine) opSplitOut() {
 	if estAll {
 		maxIn = e.limitAround(sumEst, false)
 	} else {
-		maxIn = pow10(38)
+		maxIn = e.sc(pow10(38))
 	}
 	o.Count(fmt.Sprintf("splitout.legs%d", len(legs)))
 	d0 := e.digest(e.h.Ctx)
@@ -1757,6 +1800,13 @@ func runRouter(t *testing.T, seed int64, n int, dir string) {
 		e.configureFees()
 		nops := 12 + r.Intn(14)
 		for i := 0; i < nops && done < n; i++ {
+			if e.poolUnderfunded() {
+				// environment corrupted by the balancer defect tracked under C02 (a swap that takes an entire reserve leaves the
+				// pool record unchanged while the pool account is emptied): pool swaps then fail in the bank send, which is not a
+				// router matter.  The history ends here.
+				o.Count("env.balancer-pool-account-below-recorded-reserves:history-ended")
+				break
+			}
 			done++
 			e.opn++
 			switch k := r.Intn(100); {
